@@ -323,8 +323,8 @@ func (g *mkGen) line(maxItems int, runnerSafe bool) []mkItem {
 				continue
 			}
 			nm := names[g.rnd.Intn(len(names))]
-			if isOpen(nm) {
-				continue
+			if isOpen(nm) && g.rnd.Intn(3) != 0 {
+				continue // same-name nesting: less often than fresh names
 			}
 			ps, sh := g.props(nm, true)
 			items = append(items, mkItem{K: "open", Name: nm, Props: ps, Sh: sh})
@@ -343,9 +343,10 @@ func (g *mkGen) line(maxItems int, runnerSafe bool) []mkItem {
 			items = append(items, mkItem{K: "closeall"})
 			open = nil
 		case r < 88:
-			// rule 5 is exercised only where it is unambiguous: first item, or directly
-			// after a literal character that was not swallowed, or after the prefix
-			if !(i == 0 || (prevK == "ch" && !mkSwallowed(items, i-1)) || prevK == "pfx") {
+			// anywhere (directly after other markers, replacements and swallowed blanks
+			// too) except after an escaped bracket, where the code's memory of the last
+			// character is neither reading of rule 5 (Markup!ItemOK)
+			if prevK == "esc" {
 				continue
 			}
 			nm := names[g.rnd.Intn(len(names))]
